@@ -14,6 +14,10 @@ CLAIMED = {
    note="Trusted as C10. 'ready' is computed from the observed history (pushed minus emitted bytes), a young single pending file counts as withheld.",
    technique="TLA+ transcription of queue.Tagged model-checked with TLC; replay of enumerated histories; TLC trace validation"),
 }
+CLAIMED["C11"] = dict(engine="payload", design="3 C11",
+   text="Two layers, both decided by TLC on transcriptions and re-decided on the real code: chunks (Queue.tla, formula C11_Chunk over every Push/Pop history) and payload parts (Payload.tla: Bin.Add/IsFull/Split and the startBin loop body; every chunk sequence of one or two files within the size bounds, payload sizes with slack 0/1/2, every flush position and every Split(n)). Every TLC behaviour is replayed on the real queue.Tagged / payload.Bin / client.binnable and compared event by event; TLC evaluates the tiling formulas on the observed payload headers, also for random runs of the real queue feeding the real bin.",
+   note="Trusted: as C10, plus the harness's repetition of the private startBin loop body around the real Bin (the sender-level harness observes the real Broker's payloads). Bounds: quick file sizes 1..13 x chunk sizes {whole,1,3,10} x payload sizes {9,10,11,20}, one flush; thorough sizes 1..26, payload sizes {3,9,10,11,20}, two flushes.",
+   technique="TLA+ transcriptions of queue allocation and payload.Bin model-checked with TLC; replay of every enumerated behaviour on the real code; TLC trace validation of observed chunks and payload headers")
 NOT_YET = {}
 ALL = ["C%02d" % i for i in range(1, 21)]
 
@@ -45,7 +49,9 @@ def main():
                   "baseline_off_cmd": BASE_OFF, "source_commits": hook_commits, "add_only": True},
         "engines": [
             {"name": "queue", "path": "spec/Queue.tla spec/MCQueue.tla spec/QueueTrace.tla harness/cmd/stsh/queue.go lib/check_queue.py",
-             "serves_properties": ["C10", "C12"], "kind_free_text": "TLC design check + behaviour replay + TLC trace validation"},
+             "serves_properties": ["C10", "C12", "C11"], "kind_free_text": "TLC design check + behaviour replay + TLC trace validation"},
+            {"name": "payload", "path": "spec/Payload.tla spec/MCPayload.tla spec/PayloadTrace.tla harness/cmd/stsh/payload.go lib/check_payload.py",
+             "serves_properties": ["C11"], "kind_free_text": "TLC design check + behaviour replay + TLC trace validation"},
         ],
         "checks": checks,
         "not_applicable": na,
